@@ -383,8 +383,17 @@ def op_add_moma(m, a):
     add_moma(m, solution=sol, linear=True)
 
 
+def _finite_bounds(m, what):
+    """ROOM and the loopless formulation multiply by the reaction bounds; with an infinite bound the coefficient is inf
+    and GLPK calls abort() at the next optimisation, killing the interpreter (nothing to do with contexts).  A caller
+    has to check this himself, so the harness does."""
+    if any(math.isinf(b) for r in m.reactions for b in r.bounds):
+        raise ValueError(f"{what} needs finite bounds")
+
+
 def op_add_room(m, a):
     from cobra.flux_analysis.room import add_room
+    _finite_bounds(m, "add_room")
     sol = m.optimize() if a.get("solution") == "given" else None
     add_room(m, solution=sol, linear=a.get("linear", True))
 
@@ -399,6 +408,7 @@ def op_fix_objective(m, a):
 
 def op_add_loopless(m, a):
     from cobra.flux_analysis.loopless import add_loopless
+    _finite_bounds(m, "add_loopless")
     add_loopless(m)
 
 
@@ -505,6 +515,8 @@ def alphabet(m):
     add("add_metabolites", "add_metabolites:replace:existing", True, r=rA.id, mets=[[mA.id, 3.0, "obj"]], combine=False)
     add("add_metabolites", "add_metabolites:replace:existing", r=rA.id, mets=[[mA.id, 3.0, "str"]], combine=False)
     add("add_metabolites", "add_metabolites:replace:new-met", True, r=rA.id, mets=[["new2_c", 1.0, "new"]], combine=False)
+    add("add_metabolites", "add_metabolites:replace:fresh-object-same-id", True, r=rA.id, mets=[[mA.id, 3.0, "new"]],
+        combine=False)
     add("subtract_metabolites", "subtract_metabolites:combine:existing", True, r=rA.id, mets=[[mA.id, 0.5, "obj"]])
     add("subtract_metabolites", "subtract_metabolites:combine:to-zero", True, r=rA.id, mets=[[mA.id, cA, "obj"]])
     add("subtract_metabolites", "subtract_metabolites:replace:existing", r=rA.id, mets=[[mA.id, 2.0, "obj"]],
@@ -1063,6 +1075,26 @@ def repair_replace_absent():
 
 
 @contextlib.contextmanager
+def repair_replace_same_id():
+    """Reaction.add_metabolites(combine=False): hand the reaction's own Metabolite object over when the key is another
+    object with the same identifier (the undo looks the old coefficient up by object identity)."""
+    from cobra.core.reaction import Reaction
+    orig = Reaction.add_metabolites
+
+    def patched(self, metabolites_to_add, combine=True, reversibly=True):
+        if not combine and self._model is not None:
+            own = {m.id: m for m in self._metabolites}
+            metabolites_to_add = {(own[str(k)] if not isinstance(k, str) and str(k) in own else k): v
+                                  for k, v in metabolites_to_add.items()}
+        return orig(self, metabolites_to_add, combine=combine, reversibly=reversibly)
+    Reaction.add_metabolites = patched
+    try:
+        yield
+    finally:
+        Reaction.add_metabolites = orig
+
+
+@contextlib.contextmanager
 def repair_validate_first():
     """Reaction.add_metabolites: look all string keys up before the first coefficient is touched."""
     from cobra.core.reaction import Reaction
@@ -1286,7 +1318,12 @@ def _can_partial(case):
 
 def _can_solver(case):
     ops = ops_of(case["prog"])
-    return any(o["op"] == "solver" and o["x"] != "glpk" and (i > 0 or _pre(case)) for i, o in enumerate(ops))
+    return any(o["op"] == "solver" and (i > 0 or _pre(case)) for i, o in enumerate(ops))
+
+
+def _can_replace_same_id(case):
+    return any(o["op"] in _STOICH and o.get("combine") is False and any(md == "new" for _, _, md in o["mets"])
+               for o in ops_of(case["prog"]))
 
 
 def _can_column(case):
@@ -1312,6 +1349,7 @@ def _can_groups(case):
 REPAIRS = [
     ("nested:undo-recorded-in-enclosing-context", repair_nested_undo, _can_nested),
     ("add_metabolites:combine=False:metabolite-not-in-reaction", repair_replace_absent, _can_replace_absent),
+    ("add_metabolites:combine=False:key-is-another-object-with-the-same-id", repair_replace_same_id, _can_replace_same_id),
     ("add_metabolites:raises-after-partial-update", repair_validate_first, _can_partial),
     ("solver-switch:earlier-undos-act-on-the-old-solver", repair_solver_switch, _can_solver),
     ("remove_reactions:objective-restored-through-stale-objects", repair_remove_reactions_objective, _can_objective),
